@@ -13,6 +13,8 @@ Operations (fields joined by `,`, operations by `;`; P = r/k<hex key>/i<index>..
   push,P,V  ains,P,I,V  arep,P,I,V  arm,P,I    Array::push / insert / replace / remove
   tpush,P   trm,P,I                            ArrayOfTables::push(Table::new()) / remove
   sort,P    Table/InlineTable::sort_values     fmt,P   Table/InlineTable/Array::fmt
+  sortby,P,C  Table/InlineTable::sort_values_by with the closure C = kdesc (keys descending) | rank (placeholders, then
+              everything that is not an integer - all tied -, then integers by value; ties pin the stability of the sort)
   mkval,P,K Item::make_value   intotab,P,K Item::into_table   intoaot,P,K Item::into_array_of_tables (stored back in the slot)
   iset,P,X  doc[k1][k2]... = X  (IndexMut with auto-vivification; X = V or N = table())
   V = I<int>. | S<hex>. | T | F | A V* ] | M (<hex>=V)* }
@@ -61,10 +63,10 @@ COQ_PROPS = "Props/C08.v"
 DRIVER_NAME = "c08"
 HARNESS = {"bin": "c08"}
 THEOREMS = [
-    "C08_step_content: forall t o t', apply o t = Some t' -> abs t' = spec_apply o (abs t)  (all 16 operation kinds)",
+    "C08_step_content: forall t o t', apply o t = Some t' -> abs t' = spec_apply o (abs t)  (all 17 operation kinds, sort_values_by included)",
     "C08_history_content / C08_history_content_all: the same folded over any operation list (inapplicable operations skipped)",
     "C08_order_abs / _insert / _remove / _sort / _array_insert: abs keeps storage order; where spec_apply puts new entries and that survivors keep their relative order",
-    "C08_verbatim: apply o t = Some t' -> untouched o p = true -> entry_repr t p = Some e -> snd e <> INone -> entry_repr t' (reloc o p) = Some e  (key repr + decor, value repr + decor, container decor of every untouched entry are identical; all 16 operation kinds)",
+    "C08_verbatim: apply o t = Some t' -> untouched o p = true -> entry_repr t p = Some e -> snd e <> INone -> entry_repr t' (reloc o p) = Some e  (key repr + decor, value repr + decor, container decor of every untouched entry are identical; all 17 operation kinds)",
     "C08_history_verbatim: the same along any applicable operation list",
     "C08_step_wf / C08_history_wf: no operation leaves an Item::None placeholder (no_none (abs t) is preserved)",
     "C08_text_valid_refuted / C08_text_content_refuted_table_in_inline / _empty_container / _unpositioned_element: the text-level half is false of the model on the four known classes (witnesses replayed on the implementation)",
@@ -72,7 +74,7 @@ THEOREMS = [
     "C08_print_sections: display_document = root prefix ++ (per section in printing order: header fragment ++ entry fragments) ++ suffix ++ trailing",
     "C08_line_printed / C08_header_printed: every line fragment of a tree occurs in its printed text; every header fragment too unless the table is implicit without lines",
     "C08_verbatim_text / C08_history_verbatim_text: the text printed after an edit contains, byte for byte, the key/value line of every untouched entry",
-    "C08_step_tbl_wf / C08_step_wf_text / C08_history_wf_text: every operation (all 16 kinds) preserves Spec/WF.v (tbl_wf proved per operation under the decidable `wf_side`; limits and section order under the boolean checks of the result `lim_side` / `order_side`, proved sound); C08_order_free: array operations and fmt never break order_ok",
+    "C08_step_tbl_wf / C08_step_wf_text / C08_history_wf_text: every operation (all 17 kinds) preserves Spec/WF.v (tbl_wf proved per operation under the decidable `wf_side`; limits and section order under the boolean checks of the result `lim_side` / `order_side`, proved sound); C08_order_free: array operations and fmt never break order_ok",
     "TEXT ROUND TRIP, closed against the WF backbone (Proofs/EditTextClose.v; no premise left): C08_text_roundtrip_closed: WF t -> apply_seq ops t = Some t' -> "
     "history_side ops t = true -> the text printed after the history is ACCEPTED and its data = text_data (abs t') = text_data (spec_apply_all ops (abs t)) "
     "(data with table kinds / inline flags erased, each standard table listed key/value lines first - what the text forces: a value inserted behind [t] prints in front "
@@ -81,15 +83,21 @@ THEOREMS = [
     "C08_parsed_text_roundtrip: for a document that was PARSED first (parse_WF discharges well-formedness) the only premise on the tree is the decidable order_ok; "
     "C08_parsed_text_roundtrip_any_order (premise: the closed boolean replay_ok t') and C08_parsed_text_roundtrip_unordered (same data up to the order of table entries) "
     "need no order condition; C08_history_slots: the side conditions preserve the three WF clauses other than order_ok",
+    "sort_values_by (17th operation kind, Table and InlineTable, comparators kdesc / rank): C08_sort_by_content: abs t' = spec_at p (spec_sort_by c) (abs t) - the caller's "
+    "comparator orders the table AND, recursively, its dotted tables; C08_order_sort_by: the result is a permutation, sorted by the comparator, and STABLE (any class of "
+    "pairwise tied entries keeps its order); C08_sort_inline_order: on an inline table sorting cannot break order_ok (on a table the side condition is order_side, as for "
+    "sort_values); C08_sort_by_defined: the model defines sort_values_by on key-distinct association lists (IndexMap invariant) - every well-formed node is one",
     "NOT proved (checked by the oracle on the implementation): relative order of the fragments across sections as one theorem",
 ]
 RULE = ("(1) gen_toml documents (random layout, comments and whitespace in every decor slot) x random operation lists "
         "(length <= 12 quick) on existing / missing / wrongly typed paths over the document's own keys plus fresh keys; "
         "(2) documents with 21..64 [headers] of 2-4 interleaved parents (standard tables and arrays of tables) x histories that push 2-5 new "
         "array-of-tables elements / insert new tables, each followed by a nested table or value under the new element, interleaved with ordinary edits; "
+        "(3) documents whose tables (root, [standard], { inline }) hold groups of dotted keys with 2-5 children (nested once more at times), integer values with ties and "
+        "non-integers x histories of sort_values_by (kdesc / rank) on the tables, the dotted tables and the inline tables, interleaved with ordinary edits; "
         "non-trivial = at least two operations applied")
 ASSUMPTIONS = [
-    "IndexMap = insertion-ordered association list, sort_keys = stable sort, Vec = list",
+    "IndexMap = insertion-ordered association list, sort_keys / sort_by = stable sort, Vec = list; sort_values_by is modelled on association lists with distinct keys (the IndexMap invariant; every well-formed tree: C08_sort_by_defined)",
     "the text-level half is proved for histories meeting the decidable side conditions (exactly where the known classes live); outside them it is checked on the implementation",
 ]
 
@@ -446,6 +454,11 @@ class Ref:
                 return False
             self.sort(n)
             return True
+        if name == "sortby":
+            if n.kind != "t" or f[2] not in ("kdesc", "rank"):
+                return False
+            self.sort_by(n, f[2])
+            return True
         if name == "fmt":
             if n.kind == "t":
                 for _, c in n.items:
@@ -485,6 +498,39 @@ class Ref:
             if c.kind == "t" and c.dotted and c.inl == t.inl:
                 self.sort(c)
         t.items.sort(key=lambda kv: kv[0])
+
+    def sort_by(self, t, cmp):
+        """sort_values_by, from the API documentation: the entries of the syntactic table are sorted with the caller's
+        comparison (a stable sort), and so are the entries of the dotted tables of the same kind below it.  A table's
+        closure sees (key, item); an inline table's closure sees (key, value): entries of an inline table that are
+        not values come first, tied."""
+        def rank(c):
+            if c.kind == "v" and c.val.startswith("i:"):
+                return (2, int(c.val[2:]))
+            return (1, 0)
+
+        def compare(a, b):
+            (ka, ca), (kb, cb) = a, b
+            if t.inl:
+                va, vb = ca.is_value(), cb.is_value()
+                if not (va and vb):
+                    return (1 if va else 0) - (1 if vb else 0)
+            if cmp == "kdesc":
+                return (ka < kb) - (ka > kb)
+            ra, rb = rank(ca), rank(cb)
+            return (ra > rb) - (ra < rb)
+
+        # insertion sort written out (stable by construction), so that the reference does not lean on a library sort
+        out = []
+        for e in t.items:
+            i = len(out)
+            while i > 0 and compare(out[i - 1], e) > 0:
+                i -= 1
+            out.insert(i, e)
+        t.items[:] = out
+        for _, c in t.items:
+            if c.kind == "t" and c.dotted and c.inl == t.inl:
+                self.sort_by(c, cmp)
 
     def iset(self, keys, x):
         if not keys or not all(isinstance(k, bytes) for k in keys):
@@ -1039,6 +1085,9 @@ def gen_ops(rng, root, n_ops, kinds, ref=None):
         elif kind == "sort":
             p, t = pick(tabs)
             f = ["sort", path_text(p)]
+        elif kind == "sortby":
+            p, t = pick(tabs)
+            f = ["sortby", path_text(p), rng.choice(["kdesc", "rank", "rank"])]
         elif kind == "fmt":
             p, t = pick(tabs + arrs)
             f = ["fmt", path_text(p)]
@@ -1065,7 +1114,7 @@ def gen_ops(rng, root, n_ops, kinds, ref=None):
 
 
 CORE_KINDS = ["ins", "ins", "rm", "rm", "push", "ains", "arep", "arm", "instab", "insaot", "tpush", "trm",
-              "sort", "fmt", "mkval", "intotab", "intoaot", "iset"]
+              "sort", "sortby", "fmt", "mkval", "intotab", "intoaot", "iset"]
 
 
 def mk_case(text, ops, kind, extra=None):
@@ -1227,6 +1276,85 @@ def gen_unpositioned_history(rng, root, parents):
     return ops
 
 
+# ---- documents with dotted-key groups and sort_values_by histories -----------------------------------------
+DOT_KEYS = [b"alpha", b"mid", b"zeta", b"beta", b"k1", b"k2", b"omega", b"b", b"a", b"z"]
+
+
+def gen_dotted(rng):
+    """tables (root, [standard], { inline }) whose key/value lines include groups of dotted keys `g.x = ..` with 2-5
+    children (sometimes nested once more), in an order that is neither ascending nor descending; integer values with
+    ties and non-integers, so that the `rank` comparator has ties to keep in place.  Returns (text, reference tree)"""
+    def scalar():
+        x = rng.random()
+        if x < 0.6:
+            v = rng.choice([1, 2, 3, 1, 2, 7, -1])
+            return (b"%d" % v, Node("v", val="i:%d" % v))
+        if x < 0.8:
+            w = rng.choice([b"s", b"t", b"uv"])
+            return (b'"' + w + b'"', Node("v", val="s:" + hx(w)))
+        if x < 0.9:
+            b_ = rng.random() < 0.5
+            return (b"true" if b_ else b"false", Node("v", val="b:true" if b_ else "b:false"))
+        return (b"[1, 2]", Node("a", elems=[Node("v", val="i:1"), Node("v", val="i:2")]))
+
+    def body(inl, depth):
+        """[(key path, text of value)], Node items (groups stored once, at the place of their first line)"""
+        n_plain = rng.randrange(0, 4)
+        n_groups = rng.choice([1, 1, 2]) if depth == 0 else rng.choice([0, 1])
+        keys = rng.sample(DOT_KEYS, min(len(DOT_KEYS), n_plain + n_groups))
+        entries, items = [], []
+        for i, k in enumerate(keys):
+            if i < n_groups:
+                sub_lines, sub_items = [], []
+                cks = rng.sample(DOT_KEYS, rng.randrange(2, 6))
+                for ck in cks:
+                    if depth == 0 and rng.random() < 0.2:
+                        ls, its = body(inl, depth + 1)
+                        if not ls:
+                            continue
+                        sub_lines += [((ck,) + kp, tx) for kp, tx in ls]
+                        sub_items.append([ck, Node("t", items=its, inl=inl, dotted=True, implicit=True)])
+                    else:
+                        tx, nd = scalar()
+                        sub_lines.append(((ck,), tx))
+                        sub_items.append([ck, nd])
+                if not sub_items:
+                    continue
+                entries.append([((k,) + kp, tx) for kp, tx in sub_lines])
+                items.append([k, Node("t", items=sub_items, inl=inl, dotted=True, implicit=True)])
+            else:
+                tx, nd = scalar()
+                entries.append([((k,), tx)])
+                items.append([k, nd])
+        order = list(range(len(entries)))
+        rng.shuffle(order)
+        flat = [l for i in order for l in entries[i]]
+        return flat, [items[i] for i in order]
+
+    cm = lambda: rng.choice([b"", b"", b"", b"  # c%d" % rng.randrange(100)])
+    out = []
+    root = Node("t", items=[])
+    ls, its = body(False, 0)
+    for kp, tx in ls:
+        out.append(b".".join(kp) + b" = " + tx + cm())
+    root.items += its
+    if rng.random() < 0.7:
+        ls, its = body(True, 0)
+        if ls:
+            k = b"inl"
+            out.append(k + b" = { " + b", ".join(b".".join(kp) + b" = " + tx for kp, tx in ls) + b" }" + cm())
+            root.items.append([k, Node("t", items=its, inl=True)])
+    for ti in range(rng.choice([0, 1, 2])):
+        tk = b"t%d" % ti
+        out.append(b"")
+        out.append(b"[" + tk + b"]" + cm())
+        ls, its = body(False, 0)
+        for kp, tx in ls:
+            out.append(b".".join(kp) + b" = " + tx + cm())
+        root.items.append([tk, Node("t", items=its)])
+    return b"\n".join(out) + b"\n", root
+
+
 WITNESSES = [
     (b"# c\na = 1 # x\nb = [1, 2] \n[t]\nk = { x = 1 }\n",
      "ins,r,k63,I5.;rm,r,k61;push,r/k62,S6869.;ins,r/k74/k6b,k79,T;arm,r/k62,0;instab,r,k6e;sort,r;fmt,r/k74;arm,r/k62,7"),
@@ -1241,6 +1369,9 @@ WITNESSES = [
     (b"# c\nc = [ { x = 1 } ]\n", "intoaot,r,k63"),
     # C08-unpositioned-element-misplaced: [c.a] ends up under the second [[c]]
     (b"[[c]]\n[[c.b]]\n[c.a]\nx = 1\n", "tpush,r/k63;sort,r/k63/i0"),
+    # sort_values_by: the comparator goes down into the dotted tables; ties (rank) keep their order
+    (b"version = 1\nname = \"x\"\ndep.mid = 2\ndep.zeta = 3\ndep.alpha = 1\n", "sortby,r,kdesc;sortby,r,rank"),
+    (b"t = { b = 2, g.y = 1, g.x = \"s\", g.z = 1, a = 2 }\n", "sortby,r/k74,rank;sortby,r/k74,kdesc"),
 ]
 
 
@@ -1260,6 +1391,11 @@ def gen_cases(rng, tier):
     for _ in range(150 if quick else 6000):
         text, root, parents = gen_interleaved(rng)
         out.append(mk_case(text, gen_unpositioned_history(rng, root, parents), "interleaved"))
+    # dotted-key groups x sort_values_by (the comparator must reach the dotted tables; ties stay in place)
+    for _ in range(250 if quick else 8000):
+        text, root = gen_dotted(rng)
+        ops = gen_ops(rng, root, rng.randrange(1, 7), ["sortby", "sortby", "sortby", "sort", "ins", "rm", "fmt", "iset"])
+        out.append(mk_case(text, ops, "dotted"))
     return out
 
 
